@@ -35,8 +35,8 @@ Print Assumptions C17_setbounds_frame.
    instance attribute a query writes is the scratch vector, no module- or class-level state *)
 Open Scope string_scope.
 Theorem C17_copy_policy : evolvent_copy_policy =
-  [("GetImage:return", "np.copy(self.yValues)"); ("GetInverseImage:yValues", "np.copy(y)"); ("GetInverseImage:return", "x");
-   ("GetPreimages:yValues", "np.copy(y)"); ("GetPreimages:return", "x");
+  [("GetImage:return", "np.copy(self.yValues)"); ("GetInverseImage:yValues", "np.array(y, dtype=np.double)"); ("GetInverseImage:return", "x");
+   ("GetPreimages:yValues", "np.array(y, dtype=np.double)"); ("GetPreimages:return", "x");
    ("SetBounds:lowerBoundOfFloatVariables", "np.copy(lowerBoundOfFloatVariables)");
    ("SetBounds:upperBoundOfFloatVariables", "np.copy(upperBoundOfFloatVariables)");
    ("__init__:numberOfFloatVariables", "numberOfFloatVariables");
